@@ -11,14 +11,21 @@ static messageq_t *q[2];
 static uint8_t *store[2];
 static size_t store_len;
 
-void aq_setup(unsigned depth, unsigned msg_len, unsigned slack)
+static uint8_t *block[2];
+static unsigned lead;
+
+/* mis: the caller's memory starts `mis` bytes into a heap block (0 = as malloc aligns it; 1..3 = not even 4-byte
+ * aligned - byte buffers carry no alignment promise); the leading bytes are watched like the trailing slack */
+void aq_setup4(unsigned depth, unsigned msg_len, unsigned slack, unsigned mis)
 {
 	store_len = (size_t)depth * msg_len + slack;
+	lead = mis;
 	for (int i = 0; i < 2; i++) {
 		free(q[i]);
-		free(store[i]);
-		store[i] = malloc(store_len);
-		memset(store[i], 0xEE, store_len);
+		free(block[i]);
+		block[i] = malloc(store_len + mis);
+		memset(block[i], 0xEE, store_len + mis);
+		store[i] = block[i] + mis;
 		q[i] = malloc(sizeof(messageq_t));
 	}
 	/* the macro is handed expressions, not identifiers, as a caller writing sizeof(hdr) + sizeof(payload) would:
@@ -28,6 +35,14 @@ void aq_setup(unsigned depth, unsigned msg_len, unsigned slack)
 	messageq_t tmp = MESSAGEQ_VAR_INIT(store[0], len_a + len_b, hdr + payload);
 	memcpy(q[0], &tmp, sizeof tmp);
 	messageq_init(q[1], store[1], store_len, msg_len);
+}
+void aq_setup(unsigned depth, unsigned msg_len, unsigned slack) { aq_setup4(depth, msg_len, slack, 0); }
+int aq_lead_ok(int i)
+{
+	for (unsigned k = 0; k < lead; k++)
+		if (block[i][k] != 0xEE)
+			return 0;
+	return 1;
 }
 static long off(int i, void *p)
 {
